@@ -192,6 +192,14 @@ func checkC13(cc any) *ev.Verdict {
 			{Portion: p, To: gen.KOD{Dst: &gen.Dst{Kind: gen.DAcct, Addr: gen.Acct("a")}}},
 			{Portion: gen.Allot{Kind: gen.ARemaining}, To: gen.KOD{Dst: &gen.Dst{Kind: gen.DAcct, Addr: gen.Acct("b")}}},
 		}}}}
+	if len(c.Text)%2 == 0 {
+		// the same parse result has already been executed with another total and another portion
+		ec.Warm = map[string]string{"total": "X 97"}
+		if c.AsVar {
+			ec.Warm["p"] = "1/3"
+		}
+		v.Label("warm")
+	}
 	r, _ := hx.Run(ec, doubles.Superset)
 	if r.Panic != "" {
 		return v.Failf(crashClass(r.Panic), "portion %q (%s): panic: %s", c.Text, asWhat(c), firstLines(r.Panic, 10))
